@@ -288,7 +288,7 @@ type instance struct {
 	get   func(context.Context, string) (*mtasts.Policy, error)
 }
 
-func start(e *env, kind, dir, life string) (*instance, error) {
+func start(e *env, kind, dir, life string, ready func(*instance)) (*instance, error) {
 	// the way maddy does it: remote.Init -> modconfig.GroupFromNode("mx_auth") -> PolicyGroup.Init ->
 	// ModuleFromNode("mx_auth.mtasts") -> NewMTASTSPolicy + Init(config.Map)
 	node := config.Node{Name: "mx_auth", Children: []config.Node{{Name: "mtasts", Children: []config.Node{
@@ -311,6 +311,7 @@ func start(e *env, kind, dir, life string) (*instance, error) {
 	in.cache.Resolver = resolver{e}
 	in.inner = in.cache.Store
 	in.cache.Store = recStore{in.inner, e}
+	ready(in) // the module is initialised; the refresh loop (if any) has not started yet
 	if life == "test" {
 		// what the package's own tests do in addition (remote_test.go:testSTSPolicy)
 		in.pol.(interface{ StartUpdater() }).StartUpdater()
@@ -472,13 +473,14 @@ func runBehaviour(t *testing.T, b behaviour, tr *vtrace.Tracer, seed int64, tmp 
 		pl := planOf(e, next(i))
 		undo := setPlan(pl)
 		var err error
-		in, err = start(e, b.Cfg.Kind, dir, b.Cfg.Life)
+		in, err = start(e, b.Cfg.Kind, dir, b.Cfg.Life, func(in *instance) {
+			if ev != "" {
+				tr.Emit(ev, vtrace.Ev{"snap": in.snap(e)})
+			}
+		})
 		undo()
 		if err != nil {
 			t.Fatalf("behaviour %d: cannot start mx_auth.mtasts: %v", b.ID, err)
-		}
-		if ev != "" {
-			tr.Emit(ev, vtrace.Ev{"snap": in.snap(e)})
 		}
 		reportRefresh(pl)
 	}
